@@ -60,6 +60,15 @@ def run_cases(ctx, mod, res, cw, use_model=True, harness_args=(), harness_exe="a
     return violations, mismatches
 
 def main(mod, argv):
+    """checks of the default tree (/repo) may run side by side; a check of another tree (VERIF_REPO: the selftest's
+    scratch copies) regenerates lean/MsPack/Generated and rebuilds the driver from *that* tree, so it runs alone"""
+    import fcntl
+    os.makedirs(C.BUILD, exist_ok=True)
+    with open(os.path.join(C.BUILD, "tree.lock"), "w") as lf:
+        fcntl.flock(lf, fcntl.LOCK_SH if C.REPO == "/repo" else fcntl.LOCK_EX)
+        return _main(mod, argv)
+
+def _main(mod, argv):
     import argparse
     ap = argparse.ArgumentParser()
     ap.add_argument("--tier", default=os.environ.get("VERIF_TIER", "quick"))
